@@ -7,7 +7,8 @@ use serde_json::{json, Value};
 
 pub const METHODS: &[&str] = &["GET", "HEAD", "POST", "PUT", "DELETE", "CONNECT", "OPTIONS", "TRACE", "PATCH"];
 pub const VERSIONS: &[&str] = &["HTTP/0.9", "HTTP/1.0", "HTTP/1.1", "HTTP/2.0"];
-pub const TARGETS: &[&str] = &["/", "/a", "/a?b=c", "*", "http://h/a", "/a%20b", "/\u{e9}"];
+/// incl. letters whose upper- or lower-case form has another UTF-8 length (dotless i, long s, fi ligature, capital I with dot, n preceded by apostrophe)
+pub const TARGETS: &[&str] = &["/", "/a", "/a?b=c", "*", "http://h/a", "/a%20b", "/\u{e9}", "/kap\u{131}/oda", "/\u{17f}\u{fb01}les/x", "/\u{130}\u{149}/x?y=\u{390}", "/\u{df}\u{1F600}"];
 pub const NAMES: &[&str] = &["A", "Host", "x-y", "Content-Length", "Content-Type"];
 pub const VALUE_ALPHABET: &[&str] = &["a", ":", " ", "=", ";"];
 pub const VALUE_EXTRA: &[&str] = &["", ": ", "a: b", ": a", "a: b: c", "bytes=0-1, 2-3", "text/html; charset=utf-8", "\u{e9}"];
@@ -223,6 +224,12 @@ pub fn run(ctx: &mut Ctx) {
                 }
             }
         }
+    }
+    // one head line longer than any 16-bit counter: a long target, a long header value, a long header name
+    for n in [65_535usize, 65_536, 70_000, 131_073] {
+        rt(ctx, mk("GET", &format!("/{}", "t".repeat(n)), "HTTP/1.1", &[("Host".to_string(), "localhost".to_string())], b""));
+        rt(ctx, mk("GET", "/a", "HTTP/1.1", &[("Host".to_string(), "h".to_string()), ("Cookie".to_string(), "c".repeat(n)), ("Accept".to_string(), "x".to_string())], b"b"));
+        rt(ctx, mk("POST", "/a", "HTTP/1.1", &[("Host".to_string(), "h".to_string())], &vec![b'z'; n]));
     }
     let fifty: Vec<(String, String)> = (0..50).map(|i| (format!("X-H{}", i), values[i % values.len()].clone())).collect();
     rt(ctx, mk("GET", "/a", "HTTP/1.1", &fifty, b"tail"));
